@@ -234,6 +234,11 @@ func acOne(c acCase, tr *traceWriter) {
 	case !absent:
 		req.URL.RawQuery = "k=" + url.QueryEscape(rawv)
 	}
+	if strings.HasPrefix(c.Fn, "Query") && (len(c.Raw)+2*len(c.Def)+len(c.Fn))%5 == 2 {
+		// other pairs of the same query string are malformed: what is well formed is still there
+		req.URL.RawQuery = "zz=%zz&" + req.URL.RawQuery + "&a;b=1&%gg=2"
+		req.URL.RawQuery = strings.ReplaceAll(req.URL.RawQuery, "&&", "&")
+	}
 	if rewrite {
 		realQuery = req.URL.RawQuery
 		req.URL.RawQuery = "k=41&k=stale&other=1"
